@@ -13,8 +13,9 @@
 -/
 namespace Amgcl.IO
 
-abbrev Byte := Nat
-abbrev Bytes := List Byte
+/-- a byte; notation (not a definition) so that numerals in byte positions are plain `Nat` numerals -/
+notation "Byte" => Nat
+abbrev Bytes := List Nat
 
 inductive Outcome (α : Type) where
   | ok (a : α)
